@@ -3,7 +3,7 @@
    the alias row of every copy route, observed with `is` / shares_memory on the real objects. *)
 From Coq Require Import List Bool ZArith.
 Import ListNotations.
-From Molli Require Import Model.Alias Proofs.Alias Gen.CopyRoutes.
+From Molli Require Import Model.Alias Proofs.Alias Proofs.AliasVal Gen.CopyRoutes.
 
 (* Recorded findings are excluded BY NAME (class, route, field), e.g.
    [(KMolecule, RJoin KMolecule, FCharges)]; everything else the specification asks of such a route
@@ -13,7 +13,9 @@ Definition known : known_t := [].
 
 (* (1) kernel computation over the regenerated table: every route the property names is present and
    its alias row meets the specification written from the property text (Model/Alias.v need_of /
-   row_ok / lone_ok): nothing shared, every field both classes have copied, parents re-pointed. *)
+   row_ok / lone_ok / vals_ok): nothing shared, every field both classes have copied, parents re-pointed; the mutable
+   VALUES held by the attrib dictionaries are fresh objects at every level on the routes whose contract is a deep copy
+   (pickle, deepcopy) and have the source's content on every route. *)
 Theorem C06_table_ok : table_ok known table = true.
 Proof. vm_compute. reflexivity. Qed.
 Print Assumptions C06_table_ok.
@@ -115,12 +117,107 @@ Theorem C06_observation_local : forall h1 h2 S o, closed h1 S -> S o -> agree S 
 Proof. exact obs_local. Qed.
 Print Assumptions C06_observation_local.
 
+(* (5) attribute VALUES.  The mutable values an attrib dictionary holds (lists, dicts, arrays, nested ones) are one
+   more container: `CDict kv (Some l)`, `get h l = CVal content`; `vptrs` / `vreach` / `vclosed` / `vseparated` follow
+   that edge, `stores` observes the content.  (5a) the regenerated table: every route whose contract is a DEEP copy
+   hands out values of its own -- of the object, of its atoms and of its bonds; no route changes their content. *)
+Theorem C06_deep_routes_separate_values : forall k r x,
+  lookup_row table k r = Some x -> deep_route r = true -> vals_ok true x = true.
+Proof. exact (table_deep_routes known table C06_table_ok). Qed.
+Print Assumptions C06_deep_routes_separate_values.
+
+Theorem C06_no_route_changes_values : forall k r x, lookup_row table k r = Some x -> vals_ok false x = true.
+Proof. exact (table_no_route_changes_values known table C06_table_ok). Qed.
+Print Assumptions C06_no_route_changes_values.
+
+(* (5b) for EVERY heap and source: a pickle round trip / deepcopy along a tabulated route is separated from its source
+   even through the attribute values (disjoint deep-closed regions, disjoint deep reach), leaves the source's values
+   as they were, and reproduces them *)
+Theorem C06_deep_copy_independent : forall k r x,
+  lookup_row table k r = Some x -> lone k = false -> deep_route r = true ->
+  forall g h o h' o', vheap_wf h -> copy_row x g (kls_code (dst_of k r)) h o = Some (h', o') ->
+  vseparated h' o' o
+  /\ (forall l, In l (vreach h' o') -> ~ In l (vreach h' o))
+  /\ exists sb sb', stores h o = Some sb /\ stores h' o = Some sb /\ stores h' o' = Some sb'
+                    /\ vfaithful_on (need_known known k r) sb sb'.
+Proof. exact (table_deep_sound known table C06_table_ok). Qed.
+Print Assumptions C06_deep_copy_independent.
+
+Theorem C06_deep_row_sound : forall nd r g d h o h' o',
+  vheap_wf h -> row_ok nd r = true -> vals_ok true r = true -> copy_row r g d h o = Some (h', o') ->
+  vseparated h' o' o
+  /\ (forall l, In l (vreach h' o') -> ~ In l (vreach h' o))
+  /\ exists sb sb', stores h o = Some sb /\ stores h' o = Some sb /\ stores h' o' = Some sb' /\ vfaithful_on nd sb sb'.
+Proof. exact copy_row_vsound. Qed.
+Print Assumptions C06_deep_row_sound.
+
+(* (5c) the deep frame rule: EVERY mutation confined to what the mutated object reaches -- in-place edits of its
+   attribute values included -- leaves what a deep-separated object shows unchanged, attribute values included *)
+Theorem C06_deep_mutation_frame : forall h (SA SB : loc -> Prop) a b ps,
+  vclosed h SA -> vclosed h SB -> (forall l, SA l -> ~ SB l) -> SA a -> SB b ->
+  vprims_okb (vreach h a) h ps = true ->
+  obs (apply_prims h ps) b = obs h b /\ stores (apply_prims h ps) b = stores h b.
+Proof. exact vframe_rule. Qed.
+Print Assumptions C06_deep_mutation_frame.
+
+Theorem C06_deep_disjoint_reach_frame : forall h a b ps,
+  vranked h -> a < length h -> b < length h ->
+  (forall l, In l (vreach h a) -> ~ In l (vreach h b)) ->
+  vprims_okb (vreach h a) h ps = true ->
+  obs (apply_prims h ps) b = obs h b /\ stores (apply_prims h ps) b = stores h b.
+Proof. exact vdisjoint_reach_frame. Qed.
+Print Assumptions C06_deep_disjoint_reach_frame.
+
+(* (5d) after a pickle round trip / deepcopy, in ANY interleaved history of mutations through the copy and through the
+   source (value edits included), no step changes what the other side shows *)
+Theorem C06_deep_copy_then_any_history : forall k r x,
+  lookup_row table k r = Some x -> lone k = false -> deep_route r = true ->
+  forall g h o h' o', vheap_wf h -> copy_row x g (kls_code (dst_of k r)) h o = Some (h', o') ->
+  forall hist, vhist_okb h' o' o hist = true ->
+  forall pre s ps post, hist = pre ++ (s, ps) :: post ->
+    obs (apply_prims (run_hist h' pre) ps) (pick (other_side s) o' o) = obs (run_hist h' pre) (pick (other_side s) o' o)
+    /\ stores (apply_prims (run_hist h' pre) ps) (pick (other_side s) o' o)
+       = stores (run_hist h' pre) (pick (other_side s) o' o).
+Proof. exact (deep_copy_then_history known table C06_table_ok). Qed.
+Print Assumptions C06_deep_copy_then_any_history.
+
+(* (5e) the in-place edit of an attribute value (object / atom j / bond j level) writes the store of the dictionary
+   that holds the value, which the object deep-reaches; the container edits of the menu are deep-confined too *)
+Theorem C06_value_edits_confined : forall h o e ps,
+  compile_vedit h o e = Some ps -> vprims_okb (vreach h o) h ps = true.
+Proof. exact compile_vedit_ok. Qed.
+Print Assumptions C06_value_edits_confined.
+
+Theorem C06_menu_edits_deep_confined : forall h o x ps,
+  compile_op h o x = Some ps -> vprims_okb (vreach h o) h ps = true.
+Proof. exact compile_op_vok. Qed.
+Print Assumptions C06_menu_edits_deep_confined.
+
+Theorem C06_deep_observation_local : forall h1 h2 (S : loc -> Prop) o,
+  vclosed h1 S -> S o -> agree S h1 h2 -> stores h2 o = stores h1 o.
+Proof. exact stores_local. Qed.
+Print Assumptions C06_deep_observation_local.
+
+(* (5f) the converse, why (5a) is needed: a copy that is only one level deep (the dictionary is copied, its values are the
+   source's objects -- row status VShared) DOES leak: for every heap, source and edit, the in-place edit made through
+   the copy is what the source shows afterwards.  (The copy constructors of /repo are such routes: see DESIGN.) *)
+Theorem C06_one_level_copy_shares_values : forall r g d h o h' o' cls sc al bl co ch we at_ kv l c0 c,
+  vheap_wf h -> o < length h ->
+  r_attrib r = Copied -> r_vals r = VShared ->
+  copy_row r g d h o = Some (h', o') ->
+  get h o = CMol cls sc al bl co ch we at_ -> get h at_ = CDict kv (Some l) -> get h l = CVal c0 ->
+  exists ps, compile_vedit h' o' (VEdit WObj c) = Some ps
+    /\ option_map s_obj (stores h' o) = Some (Some c0)
+    /\ option_map s_obj (stores (apply_prims h' ps) o) = Some (Some c).
+Proof. exact one_level_copy_leaks. Qed.
+Print Assumptions C06_one_level_copy_shares_values.
+
 (* ---- non-vacuity: a two-atom, one-bond molecule with attributes, charges and coordinates *)
 Definition ex_heap : heap :=
   [ CMol 5 [1; 0; 1]%Z 1 (Some 2) (Some 3) (Some 4) None 5;
-    CList [6; 8]; CList [10]; CArr [1; 2; 3; 4; 5; 6]%Z; CArr [7; 8]%Z; CDict [(1, 2)]%Z;
-    CAtom [6; 0]%Z 7 (PTo 0); CDict [(3, 4)]%Z; CAtom [8; 1]%Z 9 (PTo 0); CDict [];
-    CBond 6 8 [1; 2]%Z 11 (PTo 0); CDict [(5, 6)]%Z ].
+    CList [6; 8]; CList [10]; CArr [1; 2; 3; 4; 5; 6]%Z; CArr [7; 8]%Z; CDict [(1, 2)]%Z None;
+    CAtom [6; 0]%Z 7 (PTo 0); CDict [(3, 4)]%Z None; CAtom [8; 1]%Z 9 (PTo 0); CDict [] None;
+    CBond 6 8 [1; 2]%Z 11 (PTo 0); CDict [(5, 6)]%Z None ].
 Definition ex_given := mk_given [] [] [] [].
 
 Example C06_hypotheses_satisfiable :
@@ -133,7 +230,7 @@ Example C06_hypotheses_satisfiable :
           /\ obs_eqb (option_map (fun ob => mk_obs (o_cls ob) (o_scal ob) (o_atoms ob) (o_bonds ob) (o_coords ob)
                                                    (o_charges ob) (o_weights ob) (o_attrib ob)) (obs h' 0))
                      (obs ex_heap 0) = true
-          /\ length (reach h' o') = 16
+          /\ length (reach h' o') = 16 /\ length h' = 29
           /\ match compile_op h' o' (OAtomAttrib 1 [(9, 9)]%Z) with
              | Some ps => prims_okb (reach h' o') h' ps = true
                           /\ hist_okb h' o' 0 [(SideA, ps); (SideB, [PWrite 3 (CArr [0; 0; 0; 4; 5; 6]%Z)])] = true
@@ -166,6 +263,53 @@ Example C06_override_hypotheses_satisfiable :
           /\ option_map o_charges (obs h' o') = Some (Some [7; 8]%Z)
           /\ r_scal y = false /\ option_map o_scal (obs h'' o'') = Some [9; 0; 1]%Z
           /\ option_map o_coords (obs h'' o'') = Some (Some [1; 2; 3; 4; 5; 6]%Z)
+      | _, _ => False
+      end
+  | _, _ => False
+  end.
+Proof. vm_compute. repeat split; reflexivity. Qed.
+
+(* the same molecule with MUTABLE attribute values at every level: an energy array on the object, a list on atom 0,
+   a dictionary on the bond.  A deep copy (the RDeepcopy row of the table) is deep-separated and shows equal values; an
+   in-place edit of the copy's array / of the bond's dictionary leaves the source's values alone and changes the copy's.
+   The same edit after a one-level copy (the RCtor row, if the table says VShared) reaches the source. *)
+Definition ex_vheap : heap :=
+  [ CMol 5 [1; 0; 1]%Z 1 (Some 2) (Some 3) (Some 4) None 5;
+    CList [6; 8]; CList [10]; CArr [1; 2; 3; 4; 5; 6]%Z; CArr [7; 8]%Z; CDict [(1, 2); (20, 21)]%Z (Some 12);
+    CAtom [6; 0]%Z 7 (PTo 0); CDict [(3, 4); (22, 23)]%Z (Some 13); CAtom [8; 1]%Z 9 (PTo 0); CDict [] None;
+    CBond 6 8 [1; 2]%Z 11 (PTo 0); CDict [(5, 6); (24, 25)]%Z (Some 14);
+    CVal [30; 31; 32]%Z; CVal [40; 41]%Z; CVal [50; 51; 52; 53]%Z ].
+
+Example C06_deep_hypotheses_satisfiable :
+  vrankedb ex_vheap = true /\ vheap_wfb ex_vheap = true /\ rankedb ex_vheap = true /\
+  match lookup_row table KMolecule RDeepcopy, lookup_row table KMolecule (RCtor KMolecule) with
+  | Some x, Some y =>
+      deep_route RDeepcopy = true /\ vals_ok true x = true /\
+      match copy_row x ex_given 5 ex_vheap 0, copy_row y ex_given 5 ex_vheap 0 with
+      | Some (h', o'), Some (h'', o'') =>
+          o' = 15 /\ vrankedb h' = true /\ disjointb (vreach h' o') (vreach h' 0) = true
+          /\ stores_eqb (stores h' o') (stores ex_vheap 0) = true
+          /\ stores_eqb (stores h' 0) (stores ex_vheap 0) = true
+          /\ stores_eqb (stores ex_vheap 0)
+                        (Some (mk_stores (Some [30; 31; 32]%Z) [Some [40; 41]%Z; None] [Some [50; 51; 52; 53]%Z])) = true
+          /\ match compile_vedit h' o' (VEdit WObj [0; 0; 0]%Z), compile_vedit h' o' (VEdit (WBond 0) [9]%Z) with
+             | Some ps, Some qs =>
+                 vprims_okb (vreach h' o') h' ps = true
+                 /\ vhist_okb h' o' 0 [(SideA, ps); (SideB, [PWrite 13 (CVal [7; 7]%Z)]); (SideA, qs)] = true
+                 /\ stores_eqb (stores (apply_prims h' (ps ++ qs)) 0) (stores h' 0) = true
+                 /\ stores_eqb (stores (apply_prims h' (ps ++ qs)) o') (stores h' o') = false
+             | _, _ => False
+             end
+          /\ match r_vals y with
+             | VShared =>
+                 match compile_vedit h'' o'' (VEdit WObj [0; 0; 0]%Z) with
+                 | Some ps => option_map s_obj (stores (apply_prims h'' ps) 0) = Some (Some [0; 0; 0]%Z)
+                              /\ disjointb (reach h'' o'') (reach h'' 0) = true
+                              /\ disjointb (vreach h'' o'') (vreach h'' 0) = false
+                 | None => False
+                 end
+             | _ => True
+             end
       | _, _ => False
       end
   | _, _ => False
